@@ -22,6 +22,13 @@
    - all local names of a function are bound from the start to [VUnbound], so that reading a
      local before assignment is UnboundLocalError (Err 6), as in Python, and the shape of
      the environment never changes.
+   - strings whose characters matter are VText (code points): == by content, len, slices, truth value and
+     `a in b` (substring) are interpreted; every other string method is a call of an untranslated
+     function (Section variable of the generated module, see pytrans.py "ext_methods"); s[i] and
+     int(s) on a VText are unsupported (Err 96 / the translator refuses), iterating over one is NOT
+     modelled (the for loop reports TypeError).  Dict literals (EDict), enumerate (EEnumerate), x.copy()
+     (ECopy: containers are values) and stores through several subscripts x[i][j][k] = e (SSetPath: e is
+     evaluated first, then the indices, as Python does) are interpreted.
    - exceptions are [Err kind] with the enum of harness/core.py; a dynamic situation the
      interpreter does not model is [Err 96] (never confused with a Python exception),
      running out of loop fuel is [Err 98]. *)
@@ -45,7 +52,8 @@ Inductive val :=
 | VNumStr (z : Z)               (* the decimal string of an integer ("12"): equal only to itself; int() converts *)
 | VDDict (l : list (val * val))   (* collections.defaultdict(list): a missing key reads as [] *)
 | VQ (q : Q)                    (* a finite float, by its exact value *)
-| VNaN.                         (* float nan: every ordered comparison and == is False *)
+| VNaN                          (* float nan: every ordered comparison and == is False *)
+| VText (s : list Z).           (* a string by its code points (== by content, len, slicing, substring test) *)
 
 Section ValEq.
   Variable veq : val -> val -> bool.
@@ -79,6 +87,7 @@ Fixpoint val_eqb (a b : val) {struct a} : bool :=
   | VDDict x, VDDict y => vdict_eqb val_eqb x y
   | VQ x, VQ y => Qeq_bool x y
   | VNaN, VNaN => true
+  | VText x, VText y => list_eqb Z.eqb x y
   | _, _ => false
   end.
 
@@ -111,6 +120,7 @@ Fixpoint py_eq (a b : val) {struct a} : bool :=
     | VList x, VList y => vlist_eqb py_eq x y
     | VObj c x, VObj d y => (c =? d) && vlist_eqb val_eqb x y
     | VNumStr x, VNumStr y => x =? y
+    | VText x, VText y => list_eqb Z.eqb x y
     | VQ x, _ => match as_flt b with Some (Some y) => Qeq_bool x y | _ => false end
     | _, VQ y => match as_flt a with Some (Some x) => Qeq_bool x y | _ => false end
     | _, _ => false
@@ -132,6 +142,7 @@ Definition truthy (v : val) : option bool :=
   | VDDict l => Some (match l with [] => false | _ => true end)
   | VQ q => Some (negb (Qeq_bool q 0))
   | VNaN => Some true
+  | VText s => Some (match s with [] => false | _ => true end)
   end.
 
 Inductive binop := Add | Sub | Mul | FloorDiv | Mod.
@@ -163,7 +174,12 @@ Inductive expr :=
 | EAsArray (lo hi : option Z) (a : expr)  (* np.asarray(a, dtype): the list itself; every element must fit the dtype *)
 | EFloat (q : Q)                          (* a float literal, by its exact value *)
 | EAbs (a : expr)                         (* abs(a) *)
-| EIn (neg : bool) (x l : expr).          (* x in l / x not in l for a list or tuple l: some element is == x *)
+| EIn (neg : bool) (x l : expr)           (* x in l / x not in l for a list or tuple l: some element is == x;
+                                             for two strings: x is a substring of l *)
+| EText (s : list Z)                      (* a string literal, by its code points *)
+| EDict (l : list (expr * expr))          (* {k1: v1, ...}: keys and values evaluated left to right *)
+| EEnumerate (a : expr)                   (* enumerate(a) for a list or tuple: the list of (index, element) *)
+| ECopy (a : expr).                       (* a.copy() for a list or dict: lists and dicts are values *)
 
 Inductive lval := LVar (x : string) | LIdx (x : string) (i : expr).
 
@@ -185,7 +201,9 @@ Inductive stmt :=
 | SExtend (l : lval) (e : expr)            (* x.extend(e) *)
 | SOracle (x : string) (bound : Z)        (* x = np.random.randint(bound): next recorded draw, from the variable "$draws" *)
 | SShuffle (l : lval)                     (* np.random.shuffle(l): the list as the recorded shuffle left it ("$shuffles") *)
-| SChoice (x : string) (e : expr).        (* x = np.random.choice(e): e[next recorded index] ("$choices"); ValueError if e is empty *)
+| SChoice (x : string) (e : expr)         (* x = np.random.choice(e): e[next recorded index] ("$choices"); ValueError if e is empty *)
+| SSetPath (x : string) (path : list expr) (e : expr).
+                                          (* x[i1]...[in] = e (n >= 1): e is evaluated first, then i1 ... in (Python's order) *)
 
 Record fundef := mkfun { fparams : list string; flocals : list string; fbody : stmt }.
 
@@ -283,6 +301,7 @@ Definition index_sem (a i : val) : res val :=
          | [] => Ok (VList [])
          | (k, v) :: r => if py_eq k i then Ok v else go r
          end) d
+  | VText _ => Err E_Unsupported      (* s[i] (a one-character string) is not modelled *)
   | _ =>
     match as_seq a, i with
     | Some l, VInt z =>
@@ -316,6 +335,9 @@ Definition slice_sem (a : val) (lo hi : option val) : res val :=
   | VTuple l =>
       bind (bound 0 (lenZ l) lo) (fun x => bind (bound (lenZ l) (lenZ l) hi) (fun y =>
         Ok (VTuple (slice_list l x y))))
+  | VText l =>
+      bind (bound 0 (lenZ l) lo) (fun x => bind (bound (lenZ l) (lenZ l) hi) (fun y =>
+        Ok (VText (slice_list l x y))))
   | _ => Err E_Unsupported
   end.
 
@@ -352,6 +374,27 @@ Definition in_range (lo hi : option Z) (v : val) : bool :=
               && match hi with Some h => z <=? h | None => true end
   end.
 
+(* substring test on code points (Python's `x in s` for two strings) *)
+Fixpoint text_prefix (p s : list Z) : bool :=
+  match p, s with
+  | [], _ => true
+  | a :: p', b :: s' => (a =? b) && text_prefix p' s'
+  | _ :: _, [] => false
+  end.
+Fixpoint text_sub (p s : list Z) : bool :=
+  text_prefix p s || match s with [] => false | _ :: r => text_sub p r end.
+
+Fixpoint enum_from (i : Z) (l : list val) : list val :=
+  match l with [] => [] | v :: r => VTuple [VInt i; v] :: enum_from (i + 1) r end.
+
+(* x[i1]...[in] = v on values: the containers along the path are rebuilt *)
+Fixpoint set_path (a : val) (idx : list val) (v : val) : res val :=
+  match idx with
+  | [] => Err E_Unsupported
+  | [i] => set_index a i v
+  | i :: r => bind (index_sem a i) (fun sub => bind (set_path sub r v) (fun sub' => set_index a i sub'))
+  end.
+
 Definition ftable := string -> option (list val -> res (val * list val)).
 
 Section Interp.
@@ -363,6 +406,12 @@ Section Interp.
       match l with
       | [] => Ok []
       | x :: r => bind (ev x) (fun v => bind (eval_list r) (fun vs => Ok (v :: vs)))
+      end.
+    (* a dict literal: each key then its value, left to right; a repeated key keeps its first position *)
+    Fixpoint eval_pairs (l : list (expr * expr)) (d : val) : res val :=
+      match l with
+      | [] => Ok d
+      | (k, x) :: r => bind (ev k) (fun kv => bind (ev x) (fun xv => bind (set_index d kv xv) (eval_pairs r)))
       end.
   End Lists.
 
@@ -410,6 +459,7 @@ Section Interp.
           match x with
           | VList l | VTuple l => Ok (VInt (lenZ l))
           | VDict d => Ok (VInt (lenZ d))
+          | VText s => Ok (VInt (lenZ s))
           | _ => Err 4
           end)
     | ERange a =>
@@ -460,7 +510,12 @@ Section Interp.
     | EIn neg x l =>
         bind (eval x en) (fun xv => bind (eval l en) (fun lv =>
           match as_seq lv with
-          | None => Err E_Unsupported
+          | None =>
+              match lv, xv with
+              | VText s, VText p => Ok (VBool (xorb neg (text_sub p s)))
+              | VText _, _ => Err 4
+              | _, _ => Err E_Unsupported
+              end
           | Some vs => Ok (VBool (xorb neg (existsb (fun y => py_eq y xv) vs)))
           end))
     | EIndexOf a x =>
@@ -474,6 +529,20 @@ Section Interp.
                  | y :: r => if py_eq y xv then Ok (VInt i) else go r (i + 1)
                  end) l 0
           end))
+    | EText s => Ok (VText s)
+    | EDict l => eval_pairs (fun e' => eval e' en) l (VDict [])
+    | EEnumerate a =>
+        bind (eval a en) (fun x =>
+          match as_seq x with
+          | Some l => Ok (VList (enum_from 0 l))
+          | None => Err E_Unsupported
+          end)
+    | ECopy a =>
+        bind (eval a en) (fun x =>
+          match x with
+          | VList _ | VDict _ | VDDict _ => Ok x
+          | _ => Err E_Unsupported
+          end)
     end.
 
   Inductive outcome :=
@@ -691,6 +760,13 @@ Section Interp.
                 | Ok _ => OErr E_Unsupported
                 end
             end
+        end
+    | SSetPath x path e =>
+        match bind (eval e en) (fun v => bind (read_var x en) (fun a =>
+                bind (eval_list (fun e' => eval e' en) path) (fun idx =>
+                  bind (set_path a idx v) (fun a' => Ok (update x a' en))))) with
+        | Ok en' => ONorm en'
+        | Err k => OErr k
         end
     end.
 
